@@ -26,6 +26,10 @@ CHECKS = {
                 technique="runtime monitoring with pause injection: the scripted peer stops at every wire offset; blocked transport reads are compared with the payload available at that point (reference decoder), no clock involved",
                 text="For every pause offset of 18 fixed responses (and sampled offsets of random / > 64 KiB bodies) x segmentation x read size, send() must return once the blank line arrived and every byte the statement calls available must be readable before any transport read reaches the pause; end-of-body must be reported without blocking once the frame is complete, and bodiless responses must read as empty without blocking.",
                 note="Logical oracle on the hooked transport: a read at a Pause step is what would block on a real socket. Uncompressed bodies only."),
+    "C05": dict(cat="exploration", design="DESIGN.md §3 C05",
+                technique="runtime monitoring under hostile workloads: panic capture, counting-allocator heap bound, read/endless-stream fuel and wall watchdog as always-on monitors over exhaustive small-alphabet strings, mutations and endless streams; crashes attributed per shard process",
+                text="Every string up to length 5 (quick) / 7 (thorough) over a 9-symbol alphabet as head remainder, chunked body and CONNECT reply; mutated valid responses (incl. numeric blow-ups to 2^64 and beyond); 12 endless constructs; declared sizes >= 2^40 -- each driven through send() and every body API to the end plus three reads, while monitors watch for panics/aborts, heap above 256 KiB + 4x bytes seen, spinning at EOF, unbounded pulls from endless streams, more than max_redirections+1 dials, and non-termination.",
+                note="Bounds are engineering bounds (2x the documented limit + one buffer); the wall watchdog is inconclusive unless reproduced alone. Memory safety of dependencies is addressed only as far as Miri/valgrind passes reach (see DESIGN.md)."),
 }
 
 NOT_APPLICABLE = {}
